@@ -127,6 +127,8 @@ def generate(contract, registry, props=None, tier="quick"):
             st.vars[gname] = eng.new_array(st, shape, gkind, None, "ghost_" + gname)
         for k, clause in enumerate(contract.requires):
             st.assume(eng.spec_bool(st, clause))
+        for clause in contract.axioms:
+            st.assume(eng.spec_bool(st, clause))
         eng.cover(st, "precondition-satisfiable", fn.lineno)
         body = fn.node.body
         outs = eng.exec_block(body, st)
